@@ -45,11 +45,16 @@ def build(profile="functional"):
     # a violation. In the region's quantifier-free context a wrong variant fails within a second.
     import re
     from vf.unit import Fragment, AnchorLost
-    m_line = re.search(r"let line = if", f.orig)
-    m_class = re.search(r"let class = match", f.orig)
-    if not m_line or not m_class or m_class.start() < m_line.start():
-        raise AnchorLost("iterate_with_lines: the statements `let line = if ..` .. `let class = match ..;` not found")
-    ra, rb = m_line.start(), f.stmt_extent(m_class.start())[1]
+    # the region: from the statement that binds `line` to the last statement before `return Some(StackFrame { .. })`; it must bind `line`, `file`, `class`
+    m_line = re.search(r"let\s+line\s*=", f.orig)
+    m_ret = re.search(r"return\s+Some\(\s*StackFrame\s*\{", f.orig)
+    if not m_line or not m_ret or m_ret.start() < m_line.start():
+        raise AnchorLost("iterate_with_lines: the statements from `let line = ..` up to `return Some(StackFrame { .. })` not found")
+    ra = m_line.start()
+    rb = ra + len(f.orig[ra:m_ret.start()].rstrip())
+    for _nm in ("file", "class"):
+        if not re.search(r"let\s+%s\s*=" % _nm, f.orig[ra:rb]):
+            raise AnchorLost("iterate_with_lines: no statement binding `%s` between `let line = ..` and the return" % _nm)
     rg = Fragment(u, f.file, mp.src, f.start + ra, f.start + rb, "region", "entry-out")
     rg.qualname = "%s[entry-out]" % f.qualname
     rg.contracted = True
